@@ -17,10 +17,10 @@ import (
 
 	"verifharness/internal/cli"
 	"verifharness/internal/gen"
+	"verifharness/internal/ingestx"
 	"verifharness/internal/model"
 	"verifharness/internal/refserver"
 	"verifharness/internal/stores"
-	"verifharness/internal/xfer"
 )
 
 // Owner of a commit.
@@ -42,6 +42,8 @@ type Ref struct {
 	Name string `json:"name"`
 	L    int    `json:"l"`
 	R    int    `json:"r"`
+	// R2: value the remote ref is moved to before a second exchange (multi-step histories)
+	R2 int `json:"r2"`
 }
 
 type Topology struct {
@@ -56,7 +58,7 @@ func GenTopology(t *rapid.T, maxExt int) Topology {
 	tp := Topology{}
 	add := func(owner int, allowed func(o int) bool) {
 		i := len(tp.Nodes)
-		nd := Node{Owner: owner, Parents: []int{}, Table: rapid.IntRange(0, xfer.PoolSize-1).Draw(t, "tbl")}
+		nd := Node{Owner: owner, Parents: []int{}, Table: rapid.IntRange(0, 40).Draw(t, "tbl")}
 		cands := []int{}
 		for j, x := range tp.Nodes {
 			if allowed(x.Owner) {
@@ -64,7 +66,7 @@ func GenTopology(t *rapid.T, maxExt int) Topology {
 			}
 		}
 		if len(cands) > 0 {
-			k := rapid.SampledFrom([]int{1, 1, 1, 2, 0}).Draw(t, "nparents")
+			k := rapid.SampledFrom([]int{1, 1, 2, 2, 1, 3, 0}).Draw(t, "nparents")
 			if k > len(cands) {
 				k = len(cands)
 			}
@@ -97,6 +99,29 @@ func GenTopology(t *rapid.T, maxExt int) Topology {
 	for i, n := 0, rapid.IntRange(0, maxExt).Draw(t, "nremote"); i < n; i++ {
 		add(Remote, func(o int) bool { return o == Both || o == Remote })
 	}
+	if rapid.IntRange(0, 3).Draw(t, "mergeTemplate") == 0 {
+		// a<-b<-c on the remote side and a merge w with parents [c, a] or [a, c]: a is within
+		// depth 2 of w only through the short path
+		base := len(tp.Nodes) - 1
+		for base >= 0 && tp.Nodes[base].Owner == Local {
+			base--
+		}
+		if base >= 0 {
+			a := len(tp.Nodes)
+			mk := func(parents ...int) {
+				i := len(tp.Nodes)
+				tp.Nodes = append(tp.Nodes, Node{Owner: Remote, Parents: parents, Table: rapid.IntRange(0, 40).Draw(t, "tbl"), Time: 1600000000 + int64(i)*60})
+			}
+			mk(base)
+			mk(a)
+			mk(a + 1)
+			if rapid.Bool().Draw(t, "farFirst") {
+				mk(a+2, a)
+			} else {
+				mk(a, a+2)
+			}
+		}
+	}
 	pick := func(side int, label string) int {
 		cands := []int{-1}
 		for j, x := range tp.Nodes {
@@ -109,7 +134,7 @@ func GenTopology(t *rapid.T, maxExt int) Topology {
 	}
 	names := rapid.Permutation(refNames).Draw(t, "refnames")[:rapid.IntRange(1, 4).Draw(t, "nrefs")]
 	for _, n := range names {
-		tp.Refs = append(tp.Refs, Ref{Name: n, L: pick(Local, "refL"), R: pick(Remote, "refR")})
+		tp.Refs = append(tp.Refs, Ref{Name: n, L: pick(Local, "refL"), R: pick(Remote, "refR"), R2: pick(Remote, "refR2")})
 	}
 	return tp
 }
@@ -159,13 +184,29 @@ func copyTable(src *stores.Mem, dst objects.Store, sum []byte) error {
 // Build creates both repositories.
 func Build(tp Topology) (*World, error) {
 	w := &World{T: tp, Uni: stores.NewMem()}
-	pool, err := xfer.Pool(w.Uni)
-	if err != nil {
-		return nil, err
-	}
+	// one table per distinct Table value: 300 rows (2 blocks); the first block is shared by all,
+	// the second differs, so that the presence of a table is specific to the commits carrying it
+	tableFor := map[int][]byte{}
 	d := gen.DAG{}
+	var err error
 	for i, n := range tp.Nodes {
-		w.Tables = append(w.Tables, pool[n.Table%xfer.PoolSize])
+		ts, ok := tableFor[n.Table]
+		if !ok {
+			t := gen.Table{Cols: []string{"id", "v"}, PK: []int{0}}
+			for r := 0; r < 300; r++ {
+				val := "x"
+				if r == 290 {
+					val = fmt.Sprintf("variant-%d", n.Table)
+				}
+				t.Rows = append(t.Rows, []gen.Cell{gen.Cell(fmt.Sprintf("k%05d", r)), gen.Cell(val)})
+			}
+			ts, err = ingestx.Simple(w.Uni, t)
+			if err != nil {
+				return nil, err
+			}
+			tableFor[n.Table] = ts
+		}
+		w.Tables = append(w.Tables, ts)
 		d.Nodes = append(d.Nodes, gen.Node{Parents: n.Parents, Time: n.Time, Table: i})
 	}
 	w.Sums, err = stores.BuildHistory(w.Uni, d, w.Tables)
